@@ -9,6 +9,8 @@ namespace Kopf.C20
 set_option maxHeartbeats 4000000 in
 theorem InvB.pres_g2 {cfg : Cfg} {s s' : State} {l : Label} (hI : InvB s)
     (hg : l.grp = 2) (h : step cfg s l = some s') : InvB s' := by
+  have hlc : ∀ t : TS, t.live = true → t = .running ∨ t = .waitingFlag ∨ t.isStopping = true := by
+    intro t; cases t <;> simp [TS.live, TS.isStopping]
   obtain ⟨h1, h2, h3, h4, h5, h6, h7, h8, h9, h10⟩ := hI
   cases l <;> simp only [step] at h
   all_goals (first | (exfalso; simp [Label.grp] at hg; done) | skip)
